@@ -27,7 +27,9 @@ RULE = ("Enumerated: every byte string of length <= 7 (quick) / <= 8 (thorough) 
         "and LF. Generated: strings up to 80 bytes built from tokens so that "
         "they are canonical for the drawn setting (or binary, or arbitrary), "
         "random chunkings. End to end: 1-6 files per tree, one setting per "
-        "file through `[name *.ext] eol=` rules, canonical or binary content "
+        "file through `[name *.ext]`, `[name dir/*]`, `[name ./file]` and "
+        "`[name dir/**/*.dat]` eol rules (basename and path-anchored "
+        "patterns, files in sub-directories), canonical or binary content "
         "committed without rules, then a fresh lightweight checkout with the "
         "rules active. Canonical is decided by an independent predicate (LF in "
         "repository: no CR LF pair; CRLF in repository: no LF without a CR "
@@ -289,8 +291,30 @@ def run_long(case, env):
 
 # ---------------------------------------------------------------- end to end
 
+STYLES = ["ext", "ext", "dir", "root", "deep"]
+
+
 def _rules_text():
-    return "".join("[name *.%s]\neol = %s\n" % (EXT[s], s) for s in SETTINGS)
+    """Basename rules and path-anchored rules (patterns with a '/': matched
+    against the whole tree-relative path) for every setting."""
+    out = []
+    for s in SETTINGS:
+        e = EXT[s]
+        for pat in ("*.%s" % e, "p_%s/*" % e, "./r?_%s.txt" % e,
+                    "q_%s/**/*.dat" % e):
+            out.append("[name %s]\neol = %s\n" % (pat, s))
+    return "".join(out)
+
+
+def _path_for(i, setting, style, subdir):
+    e = EXT[setting]
+    if style == "dir":
+        return "p_%s/f%d.txt" % (e, i)
+    if style == "root":
+        return "r%d_%s.txt" % (i, e)
+    if style == "deep":
+        return "q_%s/x/y%d.dat" % (e, i)
+    return ("d/" if subdir and i % 2 else "") + "f%d.%s" % (i, e)
 
 
 def _set_rules(text):
@@ -327,7 +351,7 @@ def gen_tree(draw, f14=False):
                 j = draw(st.integers(0, len(x)))
                 x = x[:j] + b"\0" + x[j:] + draw(st.sampled_from(
                     [b"", b"\r\n", b"\n"]))
-        files.append(["f%d.%s" % (i, EXT[setting]), setting, b2s(x)])
+        files.append([draw(st.sampled_from(STYLES)), setting, b2s(x)])
     return {"files": files, "subdir": draw(st.booleans())}
 
 
@@ -338,8 +362,11 @@ def _hex(h):
 def run_tree(case, env):
     from breezy import workingtree
     from vf.lib import bz
-    files = [(("d/" if case["subdir"] and i % 2 else "") + name, setting,
-              s2b(c)) for i, (name, setting, c) in enumerate(case["files"])]
+    files = [(_path_for(i, setting, style, case["subdir"]), setting, s2b(c))
+             for i, (style, setting, c) in enumerate(case["files"])]
+    anchored = {_path_for(i, setting, style, case["subdir"])
+                for i, (style, setting, c) in enumerate(case["files"])
+                if style != "ext"}
     for _, setting, c in files:
         check(is_binary(c) or is_canonical(setting, c),
               "C45/harness-generator-not-canonical", case)
@@ -347,13 +374,11 @@ def run_tree(case, env):
         _set_rules(None)
         a = env.newdir("a")
         wt = bz.init_tree(a)
-        if case["subdir"]:
-            os.mkdir(os.path.join(a, "d"))
-            wt.add(["d"])
         for path, _, c in files:
+            os.makedirs(os.path.dirname(os.path.join(a, path)), exist_ok=True)
             with open(os.path.join(a, path), "wb") as f:
                 f.write(c)
-        wt.add([p for p, _, _ in files])
+        wt.smart_add([a])
         bz.commit(wt, rev_id="r1")
         basis = wt.basis_tree()
         with basis.lock_read():
@@ -402,7 +427,11 @@ def run_tree(case, env):
                         check(_hex(wbasis.get_file_sha1(path)) == bz.sha1(c),
                               "C45/harness-basis-sha1", d)
                         if disk != c:
-                            label = "checkout-converts-line-ends"
+                            if path in anchored:
+                                label = ("checkout-converts-line-ends:"
+                                         "path-anchored-rule")
+                            elif label is None or not label.endswith("rule"):
+                                label = "checkout-converts-line-ends"
                         elif is_binary(c) and b"\n" in c and label is None:
                             label = "binary-left-alone"
         return ok(label) if label else trivial()
